@@ -585,3 +585,44 @@ def json_marshal(it, st, args, fname):
             raise Unsupported('encoding/json.Marshal of a string that needs escaping')
     out = [ord('"')] + list(v.b) + [ord('"')]
     return ret(st, (it.make_slice(st, 'uint8', out), None))
+
+
+# ------------------------------------------------------------------ AES-CTR as an ideal stream cipher
+# aes.NewCipher(key) -> opaque block; cipher.NewCTR(block, iv) -> a stream whose key stream is an
+# uninterpreted function of (stream creation number, position): arbitrary but fixed bytes.  Nothing that
+# depends on these bytes may be observed for native comparison (the real run uses real AES).
+
+@I.reg('crypto/aes.NewCipher')
+def aes_newcipher(it, st, args, fname):
+    n = it.concrete_int(st, args[0].len, 'AES key length')
+    if n not in (16, 24, 32):
+        raise Unsupported('aes.NewCipher with an invalid key length (error path not modelled)')
+    oid = it.new_obj(st, ('AESBLOCK', tuple(it.slice_values(st, args[0], 'aes key'))), ('OPAQUE',))
+    it.ctx.assumptions.add('AES-CTR is an ideal stream cipher: key stream bytes are uninterpreted (arbitrary, fixed per stream and position)')
+    return ret(st, (Iface('$aesblock', Ptr(oid)), None))
+
+
+@I.reg('crypto/cipher.NewCTR')
+def cipher_newctr(it, st, args, fname):
+    k = st.nd.get('$ctr', 0)
+    st.nd['$ctr'] = k + 1
+    oid = it.new_obj(st, ('CTR', k, 0), ('OPAQUE',))
+    return ret(st, Iface('$ctr', Ptr(oid)))
+
+
+def ctr_xor(it, st, args):
+    h, dst, src = args
+    _, k, pos = st.heap[h.obj]
+    vals = it.slice_values(st, src, 'XORKeyStream src') if src.obj is not None else []
+    f = it.uf.get(('ctr', k))
+    if f is None:
+        f = it.uf[('ctr', k)] = z3.Function(f'UF_ctr_{k}', z3.BitVecSort(32), z3.BitVecSort(8))
+    out = [z3.simplify((v if is_sym(v) else z3.BitVecVal(v, 8)) ^ f(z3.BitVecVal(pos + i, 32))) for i, v in enumerate(vals)]
+    st.heap[h.obj] = ('CTR', k, pos + len(vals))
+    if out:
+        tmp = it.make_slice(st, 'uint8', out)
+        it.do_copy(st, dst, tmp)
+    return ret(st)
+
+
+I.synth[('$ctr', 'XORKeyStream')] = ctr_xor
